@@ -346,8 +346,31 @@ Qed.
 
 Lemma fresh_init c : fresh (abf_init Rops c).
 Proof. split; reflexivity. Qed.
-Lemma fresh_init_data c cnt0 grad0 : fresh (abf_init_data Rops c cnt0 grad0).
-Proof. split; reflexivity. Qed.
+Lemma fresh_add_data c s d : fresh s -> fresh (abf_add_data Rops c s d).
+Proof. intros [H1 H2]. split; assumption. Qed.
+Lemma fresh_fold c l : forall s, fresh s -> fresh (fold_left (abf_add_data Rops c) l s).
+Proof. induction l as [|d l IH]; intros s H; cbn [fold_left]; [exact H | apply IH, fresh_add_data, H]. Qed.
+Lemma fresh_init_data c l : fresh (abf_init_data Rops c l).
+Proof. unfold abf_init_data. apply fresh_fold, fresh_init. Qed.
+
+(* what the data sets contain: the summed counts, and the summed gradient * count *)
+Fixpoint data_cnt (l : list (@dataset R)) (b : idx) : Z :=
+  match l with [] => 0%Z | d :: r => (fst d b + data_cnt r b)%Z end.
+Fixpoint data_sum (l : list (@dataset R)) (b : idx) (k : nat) : R :=
+  match l with [] => 0 | d :: r => vget Rops (snd d b) k * IZR (fst d b) + data_sum r b k end.
+
+Lemma fold_data_grids c l : forall s b,
+  s_cnt (fold_left (abf_add_data Rops c) l s) b = (s_cnt s b + data_cnt l b)%Z /\
+  forall k, (k < c_nd c)%nat ->
+    vget Rops (s_sum (fold_left (abf_add_data Rops c) l s) b) k = vget Rops (s_sum s b) k + data_sum l b k.
+Proof.
+  induction l as [|d l IH]; intros s b; cbn [fold_left data_cnt data_sum].
+  - split; [lia | intros k Hk; lra].
+  - destruct (IH (abf_add_data Rops c s d) b) as [Hc Hs]. split.
+    + rewrite Hc. unfold abf_add_data. cbn [s_cnt]. lia.
+    + intros k Hk. rewrite (Hs k Hk). unfold abf_add_data. cbn [s_sum]. rewrite vget_vbuild by exact Hk.
+      cbn [nadd nmul nofZ Rops]. lra.
+Qed.
 
 Theorem abf_state_is_sample_sum (c : @abf_cfg R) (h : list (@abf_in R)) (b : idx) (a : bool) :
   wf_cfg c -> steady c a h ->
@@ -363,23 +386,23 @@ Proof.
 Qed.
 
 (* inputPrefix: the grids after a history started from data read from files are that data plus the samples
-   of the history: count = count read + number, sum = gradient read * count read - sum of the forces *)
-Theorem abf_state_with_input_data (c : @abf_cfg R) (cnt0 : idx -> Z) (grad0 : idx -> @vec R)
+   of the history: count = counts read + number, sum = sum of gradient read * count read - sum of the forces *)
+Theorem abf_state_with_input_data (c : @abf_cfg R) (l : list (@dataset R))
         (h : list (@abf_in R)) (b : idx) (a : bool) :
   wf_cfg c -> steady c a h ->
-  let s0 := abf_init_data Rops c cnt0 grad0 in
-  let r := abf_run_data Rops c cnt0 grad0 h in
+  let s0 := abf_init_data Rops c l in
+  let r := abf_run_data Rops c l h in
   let S := attributed Rops c (trace_from c s0 h) in
-  s_cnt (fst r) b = (cnt0 b + cnt_of b S)%Z /\
+  s_cnt (fst r) b = (data_cnt l b + cnt_of b S)%Z /\
   forall k, (k < c_nd c)%nat ->
-    vget Rops (s_sum (fst r) b) k = vget Rops (grad0 b) k * IZR (cnt0 b) - fsum_of k b S.
+    vget Rops (s_sum (fst r) b) k = data_sum l b k - fsum_of k b S.
 Proof.
   intros Hwf Hst. cbn zeta.
-  pose proof (run_from_fresh c (abf_init_data Rops c cnt0 grad0) h b a Hwf Hst (fresh_init_data c cnt0 grad0)) as H.
-  cbn zeta in H. destruct H as [Hc Hs]. unfold abf_run_data. split.
-  - rewrite Hc. reflexivity.
-  - intros k Hk. rewrite (Hs k Hk). unfold abf_init_data. cbn [s_sum]. rewrite vget_vbuild by exact Hk.
-    reflexivity.
+  pose proof (run_from_fresh c (abf_init_data Rops c l) h b a Hwf Hst (fresh_init_data c l)) as H.
+  cbn zeta in H. destruct H as [Hc Hs]. unfold abf_run_data.
+  destruct (fold_data_grids c l (abf_init Rops c) b) as [Dc Ds]. fold (abf_init_data Rops c l) in Dc, Ds. split.
+  - rewrite Hc, Dc. unfold abf_init. cbn [s_cnt]. lia.
+  - intros k Hk. rewrite (Hs k Hk), (Ds k Hk). unfold abf_init. cbn [s_sum]. rewrite vget_vzero. lra.
 Qed.
 
 (* ---------------------------------------------------------------- whole-vector form *)
@@ -857,15 +880,15 @@ Proof.
   rewrite Hi. reflexivity.
 Qed.
 
-Theorem abf_state_with_input_data_const c cnt0 grad0 h b a :
+Theorem abf_state_with_input_data_const c l h b a :
   wf_cfg c -> apply_const a h ->
-  let s0 := abf_init_data Rops c cnt0 grad0 in
-  let r := abf_run_data Rops c cnt0 grad0 h in
+  let s0 := abf_init_data Rops c l in
+  let r := abf_run_data Rops c l h in
   let S := attributed Rops c (ABFModel.trace_from Rops c s0 h) in
-  s_cnt (fst r) b = (cnt0 b + cnt_of b S)%Z /\
+  s_cnt (fst r) b = (data_cnt l b + cnt_of b S)%Z /\
   forall k, (k < c_nd c)%nat ->
-    vget Rops (s_sum (fst r) b) k = vget Rops (grad0 b) k * IZR (cnt0 b) - fsum_of k b S.
-Proof. intros Hwf Hc. exact (abf_state_with_input_data c cnt0 grad0 h b a Hwf (steady_const c a h Hc)). Qed.
+    vget Rops (s_sum (fst r) b) k = data_sum l b k - fsum_of k b S.
+Proof. intros Hwf Hc. exact (abf_state_with_input_data c l h b a Hwf (steady_const c a h Hc)). Qed.
 
 Lemma example_apply_const :
   apply_const true [@mkIn R [(1/2)%R] [1%R] [0%R] [3%R] false true; @mkIn R [(1/2)%R] [0%R] [0%R] [3%R] false true].
